@@ -473,6 +473,8 @@ def wick_fb(L, G):
 
 def _same(a, b):
     fa, fb_ = np.asarray(a, dtype=object).reshape(-1), np.asarray(b, dtype=object).reshape(-1)
+    if fa.size == 0 and fb_.size == 0:
+        return np.shape(a) == np.shape(b)          # an empty spin channel: identified by its shape
     return fa.size == fb_.size and fa.size > 0 and fa[0] is fb_[0]
 
 
@@ -576,21 +578,33 @@ def _intercepts(c):
     def h_green_rhf(it, e, ins):
         if len(e.outvars) != 1:
             return None
-        return [fr["gu"]["V"].s if _same(ins[0], c.wu.s) else fr["gd"]["V"].s]
+        # a callee's contract is applied to the arguments it is stated for: the walker block decides which Green's function comes back
+        if _same(ins[0], c.wu.s):
+            return [fr["gu"]["V"].s]
+        if _same(ins[0], c.wd.s):
+            return [fr["gd"]["V"].s]
+        raise Unsupported("Green's-function callee called with something that is not a walker block")
+
+    def _walkers_first(ins):
+        if not (len(ins) >= 2 and _same(ins[0], c.wu.s) and _same(ins[1], c.wd.s)):
+            raise Unsupported("callee not called with (walker_up, walker_dn, ...)")
 
     def h_green_uhf(it, e, ins):
         if len(e.outvars) != 2:
             return None
+        _walkers_first(ins)
         return [fr["gu"]["V"].s, fr["gd"]["V"].s]
 
     def h_green_sd(it, e, ins):       # noci: batched over determinants
         if len(e.outvars) != 2:
             return None
+        _walkers_first(ins)
         return [fr["gu"]["V"].s, fr["gd"]["V"].s]
 
     def h_ov_sd(it, e, ins):
         if len(e.outvars) != 1:
             return None
+        _walkers_first(ins)
         return [fr["ok"]["V"].s]
     if kind == "rhf":
         return {"_calc_green": h_green_rhf}
@@ -897,6 +911,10 @@ def auto_energy_lemma(norb, nu, nd, nchol=1, restricted=False):
     o0 = H.identity(f"C02.en.fd.order0{tagname}", c0, N0 / D0, functions=fns, inputs=c.inp, t0=t0,
                     note=f"eps^0 coefficient == <bra|H|phi>/<bra|phi> for an arbitrary bra; overlap callee replaced by contract "
                          f"({seen['plain']} plain, {seen['jvp']} jvp-transformed calls)")
+    if o0["status"] == REFUTED:
+        # native replay: the finite-difference energy of an AD trial (UCISD, spin-dependent h1, unrestricted complex walker) against the Fock estimator;
+        # tolerance 1e-5: the step size enters at second order
+        replay_observable(o0, "CISD" if restricted else "UCISD", 3, (1, 1) if restricted else (2, 1), restricted, "energy", {} if not restricted else {"spin_dep": False})
     obs.append(o0)
     c1 = num.get(m + 1, sp.R.zero)
     obs.append(ob(f"C02.en.fd.odd{tagname}", DISCHARGED if c1 == 0 else REFUTED, kind="bounded", backend="ring",
